@@ -403,6 +403,72 @@ def r6_address_arithmetic(ctx, F):
                           % (short(fn.id), fn.const_of(t["ops"][1])))
 
 
+def r7_local_frames(ctx, F):
+    """procedure locals: compile_procedure's prologue raises fmp by n = num_locals, so the activation owns the n addresses
+    fmp' - n + 1 .. fmp'. For loc_load / loc_loadw / loc_store / loc_storew / locaddr the lowering (extracted with a symbolic
+    index and a symbolic n) must accept exactly the indexes 0 <= i < n and add the offset i - (n - 1) to fmp': an index outside
+    that range, or another offset, addresses a word of a caller's or callee's frame"""
+    from . import lowering, execmodel
+    L = lowering.lower_all(F)
+    PP = execmodel.P_
+    grid = [(n, i) for n in (1, 2, 7, 65535) for i in sorted({0, n // 2, n - 1})]
+    cnt = 0
+    for v in ("LocLoad", "LocLoadW", "LocStore", "LocStoreW", "Locaddr"):
+        ctx.inst(key=v, nontrivial=True)
+        if v not in L:
+            ctx.violation("local-instruction-missing|%s" % v, "assembly/src/assembler/instruction/mem_ops.rs", "no lowering for %s" % v)
+            continue
+        oks = [p for p in L[v].paths if p["outcome"] == "ok"]
+        if not oks:
+            ctx.violation("local-instruction-missing|%s" % v, "assembly/src/assembler/instruction/mem_ops.rs", "%s has no successful lowering path" % v)
+            continue
+        for p in oks:
+            cnt += 1
+            rng = [(c, val) for c, val, l in p["guards"] if isinstance(c, Term) and c.op == "in_range"]
+            okr = len(rng) == 1 and rng[0][1] == 1 and "imm_u16" in repr(rng[0][0].args[0])
+            if okr:
+                kind, lo_, hi_ = rng[0][0].args[1:4]
+                for n in (1, 2, 7, 65535):
+                    lo_v, hi_v = execmodel.ev(lo_, {"num_proc_locals": n}), execmodel.ev(hi_, {"num_proc_locals": n})
+                    if lo_v != 0 or hi_v is None or hi_v + (1 if kind == "RangeInclusive" else 0) != n:
+                        okr = False
+            ctx.oblig(okr)
+            if not okr:
+                ctx.violation("local-index-range|%s" % v, "assembly/src/assembler/instruction/mem_ops.rs",
+                              "%s accepts the local index under %s; a procedure with n locals owns exactly the indexes 0 <= i < n (range 0..num_proc_locals, upper bound exclusive)"
+                              % (v, [(repr(c), val) for c, val in rng]))
+            # the offset added to fmp: the polynomial mentioning num_proc_locals in the pushed value or in the push_felt guards
+            cands = []
+            for o in p["ops"]:
+                for x in (o[1] if isinstance(o[1], tuple) else ()):
+                    if isinstance(x, Poly) and "num_proc_locals" in repr(x):
+                        cands.append(x)
+            for c, val, l in p["guards"]:
+                if isinstance(c, Term) and c.op == "eq" and isinstance(c.args[0], Poly) and "num_proc_locals" in repr(c.args[0]):
+                    cands.append(c.args[0])
+            if not cands or any(repr(x) != repr(cands[0]) for x in cands):
+                ctx.violation("UNANALYSABLE|local-offset|%s" % v, "assembly/src/assembler/instruction/mem_ops.rs", "cannot identify the fmp offset of %s: %s" % (v, [repr(x) for x in cands][:3]))
+                continue
+            q = cands[0]
+            bad = None
+            for n, i in grid:
+                got = execmodel.ev(q, {"imm_u16": i, "num_proc_locals": n})
+                if got is None or got % PP != (i - (n - 1)) % PP:
+                    bad = (n, i, got)
+                    break
+            ctx.oblig(bad is None)
+            if bad is not None:
+                n, i, got = bad
+                ctx.violation("local-offset|%s" % v, "assembly/src/assembler/instruction/mem_ops.rs",
+                              "%s adds %s to fmp for local %d of %d (offset term %s); the frame of the activation is fmp - n + 1 .. fmp, so local i lives at offset i - (n - 1) = %d" % (v, got if got is None or got < PP // 2 else got - PP, i, n, repr(q), i - (n - 1)))
+            ops = [o[0] for o in p["ops"]]
+            okf = "FmpAdd" in ops
+            ctx.oblig(okf)
+            if not okf:
+                ctx.violation("local-not-fmp-relative|%s" % v, "assembly/src/assembler/instruction/mem_ops.rs", "%s does not address its local relative to fmp: %s" % (v, ops))
+    ctx.floor("local-instruction-lowering-paths", cnt, 15)
+
+
 def run(ctx, F):
     ctx.trusted += ["rustc MIR via mirfacts", "mirsym + abstract Process model"]
     ctx.assumptions += ["memory contents over histories are not decided; the rules decide which context/address every access uses and how contexts are switched"]
@@ -411,4 +477,5 @@ def run(ctx, F):
     ctx.run_rule("C07-R3", "context switch pairing: what start_call_block snapshots is what end_call_block restores, after the depth check", r3_context_pairing, F)
     ctx.run_rule("C07-R4", "syscall gate dominates the context switch; caller gated by in_syscall; assembler kernel restrictions", r4_syscall_gate, F)
     ctx.run_rule("C07-R5", "locals regions: FMP_MIN / SYSCALL_FMP_MIN / FMP_MAX equal the documented layout; start_call, start_syscall, restore_context set fmp/ctx/in_syscall/fn_hash accordingly", r5_locals_regions, F)
+    ctx.run_rule("C07-R7", "procedure locals: loc_* / locaddr accept exactly the indexes 0 <= i < num_locals and address fmp + i - (num_locals - 1), i.e. a word of the activation's own frame (symbolic index and frame size, offset term evaluated on a boundary grid)", r7_local_frames, F)
     ctx.run_rule("C07-R6", "u32 additions on memory addresses are guarded", r6_address_arithmetic, F)
